@@ -88,7 +88,7 @@ static IndexOf<T> mkindex(Toks& tk, int64_t n) {
 template <typename T>
 static ContentPtr mknumpy(Toks& tk, util::dtype dt, const std::vector<ssize_t>& shape,
                           const std::vector<ssize_t>& strides_items, ssize_t offset_items, int64_t nbuf,
-                          bool isfloat, bool isunsigned) {
+                          bool isfloat, bool isunsigned, const std::string& fmt = std::string()) {
   std::shared_ptr<void> ptr = kernel::malloc<void>(kernel::lib::cpu, (nbuf == 0 ? 1 : nbuf) * (int64_t)sizeof(T));
   T* raw = reinterpret_cast<T*>(ptr.get());
   for (int64_t i = 0; i < nbuf; i++) {
@@ -100,7 +100,7 @@ static ContentPtr mknumpy(Toks& tk, util::dtype dt, const std::vector<ssize_t>& 
   for (auto s : strides_items) strides.push_back(s * (ssize_t)sizeof(T));
   return std::make_shared<NumpyArray>(Identities::none(), util::Parameters(), ptr, shape, strides,
                                       offset_items * (ssize_t)sizeof(T), (ssize_t)sizeof(T),
-                                      util::dtype_to_format(dt), dt, kernel::lib::cpu);
+                                      fmt.empty() ? util::dtype_to_format(dt) : fmt, dt, kernel::lib::cpu);
 }
 
 static ContentPtr mknumpy_dispatch(Toks& tk, const std::string& dts, const std::vector<ssize_t>& shape,
@@ -116,6 +116,9 @@ static ContentPtr mknumpy_dispatch(Toks& tk, const std::string& dts, const std::
   if (dts == "uint64") return mknumpy<uint64_t>(tk, util::dtype::uint64, shape, strides, off, nbuf, false, true);
   if (dts == "float32") return mknumpy<float>(tk, util::dtype::float32, shape, strides, off, nbuf, true, false);
   if (dts == "float64") return mknumpy<double>(tk, util::dtype::float64, shape, strides, off, nbuf, true, false);
+  // datetimes and time differences: 64-bit tick counts with the unit in the format, e.g. M8[ms] / m8[s]
+  if (dts.rfind("M8[", 0) == 0) return mknumpy<int64_t>(tk, util::dtype::datetime64, shape, strides, off, nbuf, false, false, dts);
+  if (dts.rfind("m8[", 0) == 0) return mknumpy<int64_t>(tk, util::dtype::timedelta64, shape, strides, off, nbuf, false, false, dts);
   throw std::logic_error("driver: unknown dtype " + dts);
 }
 
@@ -399,6 +402,9 @@ static void scalar_tostr(const NumpyArray* raw, std::ostream& out) {
     case util::dtype::uint64: out << *reinterpret_cast<uint64_t*>(p); return;
     case util::dtype::float32: fmt_double((double)*reinterpret_cast<float*>(p), out); return;
     case util::dtype::float64: fmt_double(*reinterpret_cast<double*>(p), out); return;
+    case util::dtype::datetime64:
+    case util::dtype::timedelta64:
+      out << "D(" << *reinterpret_cast<int64_t*>(p) << ",'" << raw->format() << "')"; return;
     case util::dtype::complex64: {
       float* f = reinterpret_cast<float*>(p);
       out << "complex("; fmt_double(f[0], out); out << ","; fmt_double(f[1], out); out << ")"; return;
